@@ -62,6 +62,13 @@ func cgroupFileWriteIfDifferent(cgroupTaskDir string, r sysutil.Resource, value 
 	if r.ResourceType() == sysutil.CPUSetCPUSName && cpuset.IsEqualStrCpus(currentValue, value) {
 		return false, nil
 	}
+	if r.ResourceType() == sysutil.CPUCFSQuotaName && sysutil.GetCurrentCgroupVersion() == sysutil.CgroupVersionV2 {
+		// cgroup-v2 cpu.max reads back as "<quota|max> <period>": compare the quota part with the value to write
+		if cur, err := sysutil.ParseCPUCFSQuotaV2(currentValue); err == nil &&
+			(cur == -1 && value == CgroupMaxSymbolStr || cur >= 0 && value == strconv.FormatInt(cur, 10)) {
+			return false, nil
+		}
+	}
 	if value == currentValue || value == CgroupMaxValueStr && currentValue == CgroupMaxSymbolStr {
 		// compatible with cgroup valued "max"
 		klog.V(6).Infof("read before write %s and got str value, considered as MaxInt64", r.Path(cgroupTaskDir))
